@@ -39,16 +39,23 @@ let drv_pool args =
         let (at, c, n) = parse_op tok in
         let now = z_of_int at in
         let ap o = let (s, r) = pool_step cfg now !st o in st := s; r in
-        let r =
+        let rs =
           match c with
-          | 'r' -> (match ap PAcq with QMiss -> ap PCreate | r -> r)
-          | 'a' -> ap PAcq
-          | 'c' -> ap PCreate
-          | 'd' -> ap (PDone (nat_of_int n))
-          | 'x' -> ap (PDie (nat_of_int n))
-          | 't' -> ap PTick
-          | _ -> QUnit in
-        out := (res_str r ^ "/" ^ snap_str true !st) :: !out) ops;
+          | 'r' -> res_str (match ap PAcq with QMiss -> ap PCreate | r -> r)
+          | 'a' -> res_str (ap PAcq)
+          | 'c' -> res_str (ap PCreate)
+          | 'd' -> res_str (ap (PDone (nat_of_int n)))
+          | 'x' -> res_str (ap (PDie (nat_of_int n)))
+          | 't' -> res_str (ap PTick)
+          | 'b' ->
+            (* n overlapping requests: all pass create_stream's decision before any dial completes *)
+            let acq = List.init n (fun _ -> ap PAcq) in
+            let hits = List.filter_map (fun r -> match r with QHit _ -> Some (res_str r) | _ -> None) acq in
+            let misses = List.length (List.filter (fun r -> r = QMiss) acq) in
+            let news = List.init misses (fun _ -> res_str (ap PCreate)) in
+            String.concat "+" (List.sort compare (hits @ news))
+          | _ -> "-" in
+        out := (rs ^ "/" ^ snap_str true !st) :: !out) ops;
     String.concat " " (List.rev !out) ^ Printf.sprintf " dials=%d" (int_of_n (!st).p_dials)
   | _ -> "BADCASE"
 
@@ -65,7 +72,9 @@ let drv_bpool args =
         let ap o = let (s, r) = pool_step cfg now !st o in st := s; r in
         let r =
           match c with
-          | 'n' -> ignore (ap (PNew (n_of_int n))); "-"
+          | 'n' | 'N' -> ignore (ap (PNew (n_of_int n))); "-"
+          | 'G' -> ignore (ap PTick); (match ap PGet with QGot k -> Printf.sprintf "s%d" (int_of_nat k) | _ -> "none")
+          | 'E' -> ignore (ap PCleanup); (match ap PGet with QGot k -> Printf.sprintf "s%d" (int_of_nat k) | _ -> "none")
           | 'i' -> ignore (ap (PAdd (nat_of_int n))); "-"
           | 'g' -> (match ap PGet with QGot k -> Printf.sprintf "s%d" (int_of_nat k) | _ -> "none")
           | 'x' -> ignore (ap (PDie (nat_of_int n))); "-"
